@@ -25,7 +25,7 @@ CHECKS = {
  "C05": ("per-path delimiter balance of every printer function, needs_paren classification of every emitter, taint from Go text to Coq string/comment sinks with value-specific guard facts, control-dependence of configuration flags, cross-check of sibling printers (path signatures of text-buffer operations), sentence shape of declaration printers",
          "Decides by structural induction over the printer (every emitter balanced given balanced holes, every emitter honours/passes needs_paren or is closed/atomic) and by taint analysis that source text reaches Coq strings only under a no-quote fact for that value and comments only through the two-pass sanitiser, that flags cannot influence bodies and that no declaration text is used as a term. Level 'other'.",
          "Coq's actual parser is not run; its documented lexical rules are used. Three known findings (for-init and non-tail block scope leak, quotes inside comments).", "DESIGN.md §4 C05"),
- "C06": ("map-range idiom classification, global-store and mutating-method scan, goroutine capture analysis (own-slot writes, per-iteration captured index), ambient-source and channel-receive who-may-call, with a positive-control package",
+ "C06": ("map-range idiom classification, global-store and mutating-method scan, goroutine capture analysis (own-slot writes, per-iteration captured index), ambient-source and channel-receive who-may-call, type-directed scan of the operands formatted into structured-error messages (no address-printing types), with a positive-control package",
          "Decides the structural causes of non-determinism and cross-package influence for every run and schedule: no order-sensitive map iteration, package-level state immutable after init, workers write only their own slot and follow the WaitGroup protocol, no clock/random/env sources, sort before emit, the command writes a package's file depending only on that package's error. Level 'other'.",
          "Races inside go/packages/go/types are not decided (documented concurrency-safe).", "DESIGN.md §4 C06"),
  "C07": ("call-graph recover discipline + audited enumeration of every potential run-time panic site (raw panics, single-result assertions, constant and variable indices, slice bounds, partial helpers, partial accessors of go/constant, nil-returning accessors of go/types, nil packages, nil-able AST fields, binding arity) with automatic discharge by must-facts (length bounds, nil/kind/type tests, caller-established facts), structural invariants and construct-keyed audit tables; completeness of context and types.Info literals; the deferred recoverer stores or re-panics on every path",
